@@ -66,7 +66,9 @@ func RunWriter(t *tr.Writer, sc WScenario) ([]byte, *Truth, bool) {
 	}
 	var ops []string
 	for _, o := range sc.Script {
-		ops = append(ops, o.String())
+		if o.K != "S" {
+			ops = append(ops, o.String())
+		}
 	}
 	hdr := tr.M{"wc": sc.WC, "level": sc.Level, "B": bgzf.BlockSize, "faultAt": sc.FaultAt, "partial": sc.Partial,
 		"script": ops, "scriptId": sc.ScriptID, "hasHdr": sc.Hdr != nil}
@@ -98,6 +100,11 @@ func RunWriter(t *tr.Writer, sc WScenario) ([]byte, *Truth, bool) {
 	}
 	closedOnce := false
 	for _, o := range sc.Script {
+		if o.K == "S" {
+			// not a library call: the caller pauses (lets held goroutines of the writer run on)
+			time.Sleep(time.Duration(o.N) * time.Millisecond)
+			continue
+		}
 		var n int
 		var e error
 		var payload []byte
